@@ -752,32 +752,30 @@ def deref_view(fn, members):
     """a copy of fn in which every use of a reference local that names an element of one of the given member tables (`T &ch =
     m_midiChannels[midCh];`, also through another such reference) is replaced by the expression it was bound to.  Rules that look for
     `m_midiChannels[..].field` read this view: binding a table element to a reference once is the most common refactoring there is.
-    Only bindings whose own operands never change afterwards are replaced (parameters and locals that are never written again)."""
+    Only bindings whose own operands cannot change afterwards are replaced (no write of an operand is reachable from the binding)."""
     al = alias_defs(fn.d)
-    written = collections.Counter()
-    for b in fn.d['blocks']:
-        for st in b['stmts']:
-            for x in walk(st['s']):
-                ap = assign_parts_raw(x)
-                tgt = ap[0] if ap else (x['e'] if is_incdec(x) else None)
-                if tgt is not None and strip(tgt).get('k') == 'DeclRefExpr':
-                    written[strip(tgt)['id']] += 1
-    def is_ref(vid):
-        for b in fn.d['blocks']:
-            for st in b['stmts']:
-                if st['s'].get('k') == 'DeclStmt':
-                    for v in st['s']['decls']:
-                        if v['id'] == vid:
-                            return bool(v.get('ref') or (v.get('t') or {}).get('ref'))
-        return False
+    writes = {}          # variable -> [(block, index)]
+    bound_at = {}
+    is_ref = {}
+    for b, j, st in fn.cfg.stmts():
+        if st['s'].get('k') == 'DeclStmt':
+            for v in st['s']['decls']:
+                bound_at[v['id']] = (b, j)
+                is_ref[v['id']] = bool(v.get('ref') or (v.get('t') or {}).get('ref'))
+        for x in walk(st['s']):
+            ap = assign_parts_raw(x)
+            tgt = ap[0] if ap else (x['e'] if is_incdec(x) else None)
+            if tgt is not None and strip(tgt).get('k') == 'DeclRefExpr':
+                writes.setdefault(strip(tgt)['id'], []).append((b, j))
     sel = {}
     for vid, init in al.items():
-        if not is_ref(vid):
+        if not is_ref.get(vid) or vid not in bound_at:
             continue
         full = subst(init, al)
-        if not any(isinstance(y, dict) and y.get('k') == 'MemberExpr' and short(y.get('n', '')) in members for y in walk(full)):
+        if not any(isinstance(y, dict) and y.get('k') == 'MemberExpr' and (members is None or short(y.get('n', '')) in members) for y in walk(full)):
             continue
-        if any(isinstance(y, dict) and y.get('k') == 'DeclRefExpr' and not y.get('fn') and written[y.get('id')] for y in walk(full)):
+        ops = {y.get('id') for y in walk(full) if isinstance(y, dict) and y.get('k') == 'DeclRefExpr' and not y.get('fn')}
+        if any(fn.cfg.stmt_before(bound_at[vid], w) for o in ops for w in writes.get(o, [])):
             continue
         sel[vid] = full
     if not sel:
